@@ -194,6 +194,33 @@ func checkC02(c *core.Ctx) {
 		c.Count("halfway_cases", 1)
 	})
 
+	// the longest pieces the property covers: one instance whose exact length lies just below 2^28 ticks
+	// (it rounds to at most 2^28-1, the largest delta a file can carry), everything else 0 ticks long
+	type lim struct{ num, den uint64 } // exact ticks = num/den
+	lims := []lim{{1<<28 - 1, 1}, {(1<<28-1)*4 + 1, 4}, {(1<<28-1)*100 + 49, 100}, {(1<<28-1)*4 - 1, 4}, {1<<28 - 2, 1}, {(1<<28-2)*3 + 1, 3}, {(1<<28-1)*1000 + 499, 1000}, {1 << 27, 1}}
+	c.Stream("limit", len(lims)*4, func(i int, r *rand.Rand) {
+		l := lims[i%len(lims)]
+		huge := []model.Frac{{Num: l.num, Den: l.den * 960}}
+		tiny := []model.Frac{{Num: 1, Den: 1000000}}
+		var p model.Piece
+		switch i / len(lims) {
+		case 0:
+			p.Inst = []model.Instance{{Chord: chord(r), Values: huge}}
+		case 1:
+			p.Inst = []model.Instance{{Values: huge}, {Chord: chord(r), Values: tiny}}
+		case 2:
+			p.Inst = []model.Instance{{Chord: chord(r), Values: tiny}, {Values: huge}}
+		default:
+			p.Inst = []model.Instance{{Values: tiny}, {Chord: chord(r), Values: huge}, {Values: tiny}}
+		}
+		if !p.TotalBelow(960, 1<<28) {
+			c.Inconclusive("harness: limit case not below 2^28")
+			return
+		}
+		judgeTiming(c, "limit", i, p, model.Flags{}, writeOpts{}, "")
+		c.Count("limit_cases", 1)
+	})
+
 	// adversarial near-halfway values: exact tick count within 1e-9 of k+1/2 but not equal
 	near := nearHalfValues()
 	c.Stream("nearhalf", len(near), func(i int, r *rand.Rand) {
